@@ -3,12 +3,15 @@
 //! * [`backend`]   field/table configurations, `Verdict`, `accept*` (real prove + verify,
 //!                 release, under `quiet_catch`, optional cell edits through hook H4)
 //! * [`exec`]      forging executor: `Circuit::ops` re-executed without conflict checks, with
-//!                 slot / port / private-data deviations propagated forward (F2, F4)
+//!                 slot / port / private-data / inherited-limb deviations propagated forward
+//!                 (F2, F4, F5)
 //! * [`fields`]    addressing and editing of the scalars of `Traces` (F3)
 //! * [`cellmap`]   matrix cell ↔ trace scalar decoding by differential probing (F1)
 //! * [`predicate`] the reference predicate "the committed values are one satisfying assignment"
 //! * [`fixture`]   circuit + inputs + prover data + honest traces, validated
-//! * [`faults`]    single faults F1–F4: enumeration, application, site keys, evaluation
+//! * [`faults`]    single faults F1–F5: enumeration, application, site keys, evaluation
+//!                 (`enumerate` = F1–F4, `enumerate_f5` = slot-less permutation input limbs,
+//!                 `enumerate_all` = both)
 //! * [`catalogue`] small circuits covering every table and mode, type-erased as [`case::Case`]
 
 //!
